@@ -26,6 +26,7 @@ FACTORIES = {
     'P': ('text', 'P'), 'Span': ('text', 'Span'), 'Section': ('text', 'Section'), 'H': ('text', 'H'),
     'List': ('text', 'List'), 'ListItem': ('text', 'ListItem'), 'A': ('text', 'A'),
     'Style': ('style', 'Style'), 'TextProperties': ('style', 'TextProperties'),
+    'DrawA': ('draw', 'A'), 'TextTitle': ('text', 'Title'), 'DcTitle': ('dc', 'Title'),
 }
 FACTORY_ORDER = sorted(FACTORIES)
 
@@ -222,9 +223,9 @@ class World(object):
                     else:
                         node = factory(op[3])(check_grammar=False)
                 elif op[1] == 't':
-                    node = Text(u'txt%d' % op[2])
+                    node = Text(u'' if op[3] == u'' else u'txt%d' % op[2])        # op[3] == '' : an empty text node
                 else:
-                    node = CDATASection(u'cd%d' % op[2])
+                    node = CDATASection(u'' if op[3] == u'' else u'cd%d' % op[2])
                 self.reg(op[2], node)
             elif k == 'append':
                 N[op[1]].appendChild(N[op[2]])
